@@ -206,6 +206,25 @@ def run_checks(ctx, msg, exprs_pool, origin):
                 ctx.violate('same-expression-different-value', 'two occurrences of one expression are bound differently',
                             dict(script=script, origin=origin))
             results[(level, how)] = vals
+        # runners are independent objects: build several with different levels FIRST, run them afterwards, and a runner
+        # without argument and pragma runs at level 1 whatever other runners were given
+        try:
+            r4 = ScriptRunner(body, data_values_nest_level=4)
+            r0 = ScriptRunner('#$ data_values_nest_level = 0\n' + body)
+            rdef = ScriptRunner(body)
+            r2 = ScriptRunner(body, data_values_nest_level=2)
+            ctx.count('runner_order_checks')
+            for lvl, rr in ((4, r4), (0, r0), (1, rdef), (2, r2), (4, r4), (1, rdef)):
+                vv = rr.run(msg)
+                got = [vv.get('v%d' % j) for j in range(len(chosen))]
+                if (lvl, 'arg') in results and got != results[(lvl, 'arg')]:
+                    ctx.violate('runner-state-shared/level%d' % lvl,
+                                'a runner built for level %d (before other runners were built) gives values of another level when run later' % lvl,
+                                dict(script=body, origin=origin))
+                    break
+        except Exception as e:
+            ctx.violate('run-raises:%s/build-then-run' % type(e).__name__, 'build-then-run raised %s' % type(e).__name__,
+                        dict(script=body, origin=origin), exc=e)
         # identities between levels (argument form), per data expression
         if all(k in results for k in ((0, 'arg'), (1, 'arg'), (2, 'arg'), (4, 'arg'))):
             for j, e in enumerate(chosen):
@@ -270,6 +289,9 @@ def expr_pool(msg):
         pool += ids[:20]
         pool += ['@[0] > ' + i for i in ids[:5]]
         pool += ['@[-1] > %s[0]' % i for i in ids[:3]]
+        pool += ['@[::-1] > %s' % i for i in ids[:4]]
+        pool += ['@[::-2] > %s' % i for i in ids[:2]]
+        pool += ['@[1::-1]' + e for e in pool if e.startswith('/')][:3]
     # keep only queries the library accepts (paths ending at valueless nodes raise QueryError: not C18's subject)
     from pybufrkit.query import BufrMessageQuerent
     from pybufrkit.errors import PyBufrKitError
